@@ -152,6 +152,15 @@ CHECKS = {
         note="D2 (stopped lost in split/split_tuple/when_all_vector) and D17 (split_tuple shared state freed under its predecessor) "
              "were found here and fixed. sync_wait/start_detached are only used where pika defines their behaviour.",
         ref="DESIGN.md section 2, C03"),
+    "C18": dict(
+        technique="runtime monitoring: reference-model comparison of random wrapper histories (logical objects with per-copy call state), "
+                  "erased vs un-erased completion records side by side, callable/value instance ledgers; ASan+UBSan as extra oracle",
+        text="Exploration: per run ~430000 operations on function/unique_function slots (callables straddling the 24-byte inline "
+             "buffer, copyable and move-only, throwing, empty use), ~150000 on any_sender/unique_any_sender slots, 9000 pipelines run "
+             "un-erased and through both wrappers (and an independent copy), plus the not-trivially-relocatable callable probe.",
+        note="D8 (inline callables relocated with memcpy) is a listed known finding decided by the selfref case; instance ledgers are "
+             "keyed by logical id because pika relocates inline callables bytewise by design.",
+        ref="DESIGN.md section 2, C18"),
 }
 
 NOT_YET = "not claimed yet: harness under construction in this session (see DESIGN.md section 2)"
